@@ -10,6 +10,8 @@
 mod nodeio;
 #[path = "../../c26/src/treeutil.rs"]
 mod treeutil;
+#[path = "../../c26/src/fgen.rs"]
+mod fgen;
 use nodeio::*;
 use vh_common::*;
 
@@ -49,10 +51,12 @@ fn names_view(m: &Model) -> Vec<String> {
 fn value(m: &Model, sheet_name: &str, row: i32, col: i32) -> String {
     use ironcalc_base::types::{Cell, FormulaValue};
     let ws = match m.workbook.worksheets.iter().find(|w| w.get_name() == sheet_name) { Some(w) => w, None => return "no-sheet".into() };
+    let fv = |v: &FormulaValue| match v {
+        FormulaValue::Number(n) => format!("n:{n}"), FormulaValue::Text(t) => format!("t:{t:?}"), FormulaValue::Boolean(x) => format!("b:{x}"),
+        FormulaValue::Error { ei, .. } => format!("e:{ei:?}"), FormulaValue::Unevaluated => "unevaluated".into() };
     match ws.cell(row, col) {
-        Some(Cell::CellFormula { v, .. }) => match v {
-            FormulaValue::Number(n) => format!("n:{n}"), FormulaValue::Text(t) => format!("t:{t:?}"), FormulaValue::Boolean(x) => format!("b:{x}"),
-            FormulaValue::Error { ei, .. } => format!("e:{ei:?}"), FormulaValue::Unevaluated => "unevaluated".into() },
+        Some(Cell::CellFormula { v, .. }) | Some(Cell::ArrayFormula { v, .. }) => fv(v),
+        Some(Cell::SpillCell { v, .. }) => format!("{v:?}"),
         Some(c) => format!("{c:?}"), None => "none".into(),
     }
 }
@@ -80,6 +84,11 @@ fn build(variant: u64) -> UserModel<'static> {
     }
     for (s, r, f) in USERS { let _ = um.set_user_input(s as u32, r, 5, f); }
     let _ = um.set_user_input(2, 1, 5, "=Aux!A1+1.5");
+    // more shapes for the tie of the rename pass (not part of the values view)
+    for (i, f) in ["=IF(G_cell>1,SUM(G_range,g_cell),-L_cell)", "=LET(a,G_cell,a+inc(G_CELL))", "=LAMBDA(q,q+G_cell)(1)", "={1,2}+G_cell", "=@G_range", "=G_cell%+G_cell^2",
+                   "=G_cell&L_cell&\"G_cell\"", "=SUM(G_range:G_cell)", "=unknownfn(G_cell,,tot(G_cell))", "=G_cell=L_cell", "=-G_cell*(G_cell-1)/G_cell", "=Sheet1!A1+G_cell"].iter().enumerate() {
+        let _ = um.set_user_input(0, 1 + i as i32, 6, f);
+    }
     um.evaluate();
     um
 }
@@ -177,11 +186,13 @@ impl Run {
         model_after.evaluate();
         twin.evaluate();
         let sheets1 = if op == OpK::RenameMentioned { ["Sheet1".to_string(), "Datos".to_string()] } else { sheets0.clone() };
-        let n1 = names_view(&model_after);
+        // the xlsx writer drops the leading '=' of a name formula (both spellings are accepted everywhere): compared modulo that
+        let unify = |v: Vec<String>| -> Vec<String> { if op == OpK::Xlsx { let mut w: Vec<String> = v.into_iter().map(|l| l.replace("= =", "= ")).collect(); w.sort(); w } else { v } };
+        let n1 = unify(names_view(&model_after));
         let v1 = values_view(&model_after, &sheets1);
         let nt = names_view(twin.get_model());
         let vt = values_view(twin.get_model(), &sheets1);
-        let n_exp = expect_names(&n0, op);
+        let n_exp = unify(expect_names(&n0, op));
         let v_exp: Vec<String> = v0.iter().map(|l| expect_value_line(l, op)).collect();
         let is_name_op = matches!(op, OpK::RenameCellName | OpK::RenameRangeName | OpK::RenameLambda | OpK::RenameLocal | OpK::RenameToUsedIdentifier);
         // values: the formula text column changes with a rename of a name; compare the value part only
@@ -229,6 +240,8 @@ impl Run {
             if after.len() == trees_before.len() {
                 for ((_, before), aft) in trees_before.iter().zip(after.iter()) {
                     // the defined-name leaf carries the formula of the name, which the re-parse refreshes: compare modulo that field
+                    // the capture: an identifier spelled like the new name is re-resolved by the re-parse, not by the pass
+                    if before.contains(&format!("V {} ", wire(new))) { continue; }
                     let line = format!("R {} {} {} | {}", wire(old), scope, wire(new), before);
                     if self.seen.insert(line.clone()) {
                         self.cs.case(&line, &strip_defname_formula(aft));
@@ -240,14 +253,50 @@ impl Run {
     }
 }
 
+impl Run {
+    /// the rename pass on random formulas that use the names (tie only)
+    fn pool_tie(&mut self, rng: &mut Rng, k: u64) {
+        let mut um = build(k);
+        let g = fgen::FGen { sheets: vec!["Sheet1".into(), "Data".into()], names: vec!["G_cell".into(), "G_range".into(), "L_cell".into(), "g_cell".into(), "inc(G_cell)".into(), "tot(1)".into(), "G_CELL".into()],
+            max_row: 8, max_col: 4, long_numbers: false, errors: true, arrays: true, spills: true, upper_user_fn: false };
+        // names are a third of the atoms: wrap the generator's formula around name atoms
+        for i in 0..24 {
+            let f = format!("{}+{}", g.formula(rng), rng.pick(&["G_cell", "SUM(G_range)", "L_cell", "IF(g_cell>1,G_cell,L_cell)", "LAMBDA(q,q+G_cell)(G_cell)"]));
+            let _ = catch_unwind(AssertUnwindSafe(|| um.set_user_input(0, 10 + i, 7, &f)));
+        }
+        let (old, new, scope, fml) = *rng.pick(&[("G_cell", "Renamed1", -1, "Sheet1!$A$1"), ("G_range", "Renamed2", -1, "Data!$B$2:$B$4"), ("L_cell", "Local2", 0, "Sheet1!$C$3")]);
+        let sc = if scope < 0 { None } else { Some(scope as u32) };
+        let before: Vec<String> = um.get_model().parsed_formulas.iter().flat_map(|pf| pf.iter().map(|p| dump_s(&p.0, &self.fns))).collect();
+        // trees the stored text does not bring back unchanged (C09 / C26 classes: associative pairs, lexer glue,
+        // long literals, upper-case user functions, #N/IMPL) are changed by the re-parse, not by the pass
+        let stable: Vec<bool> = um.get_model().parsed_formulas.iter().flat_map(|pf| pf.iter().map(|p| {
+            let t = &p.0;
+            treeutil::reassoc(t) == *t && treeutil::glue_class(t, true).is_none() && !treeutil::has_long_number(t)
+                && !treeutil::contains(t, &|n| matches!(n, ironcalc_base::expressions::parser::Node::NamedFunctionKind { name, .. } if name.to_lowercase() != *name)
+                    || matches!(n, ironcalc_base::expressions::parser::Node::ErrorKind(ironcalc_base::expressions::token::Error::NIMPL)) || matches!(n, ironcalc_base::expressions::parser::Node::ParseErrorKind { .. }))
+        })).collect();
+        if um.update_defined_name(old, sc, new, sc, fml).is_err() { return; }
+        let after: Vec<String> = um.get_model().parsed_formulas.iter().flat_map(|pf| pf.iter().map(|p| dump_s(&p.0, &self.fns))).collect();
+        if before.len() != after.len() { return; }
+        *self.dist.entry("pool_tie".into()).or_insert(0) += 1;
+        for ((b4, aft), ok) in before.iter().zip(after.iter()).zip(stable.iter()) {
+            if !ok { continue; }
+            let line = format!("R {} {} {} | {}", wire(old), scope, wire(new), b4);
+            if self.seen.insert(line.clone()) { self.cs.case(&line, &strip_defname_formula(aft)); }
+        }
+    }
+}
+
 /// the dump of a DefinedNameKind is "D <name> <scope> <formula>": blank the formula field
 fn strip_defname_formula(d: &str) -> String {
     let t: Vec<&str> = d.split(' ').collect();
     let mut out: Vec<String> = vec![];
     let mut i = 0;
     while i < t.len() {
-        if t[i] == "D" && i + 3 < t.len() + 0 && i + 3 <= t.len() - 0 && i + 3 < t.len() + 1 {
-            if i + 3 < t.len() + 1 && i + 3 <= t.len() { out.push("D".into()); out.push(t[i + 1].into()); out.push(t[i + 2].into()); out.push("-".into()); i += 4; continue; }
+        if t[i] == "D" && i + 3 < t.len() {
+            out.push("D".into()); out.push(t[i + 1].into()); out.push(t[i + 2].into()); out.push("-".into());
+            i += 4;
+            continue;
         }
         out.push(t[i].to_string());
         i += 1;
@@ -282,6 +331,7 @@ fn main() {
         if a.thorough { for variant in 0..6 { run.scenario(li, ci, *op, variant); } }
         else { let variant = (rng.below(6) + (li + ci + k) as u64) % 6; run.scenario(li, ci, *op, variant); }
     } } }
+    for k in 0..(if a.thorough { 400 } else { 30 }) { run.pool_tie(&mut rng, k); }
     let Run { cs, or, dist, samples, distinct, .. } = run;
     cs.finish(json!({
         "oracle_checked": or.checked, "oracle_failures": or.failures, "oracle_failures_per_class": or.per_class,
